@@ -43,6 +43,27 @@ fn num_of(class: &str, rng: &mut impl Rng) -> CV {
     CV::Num { text, exact }
 }
 
+/// the nesting a tower names: x inside n containers (arrays / one-member objects / alternating)
+pub fn expand_towers(v: &Value) -> Value {
+    match v["t"].as_str().unwrap_or("") {
+        "tower" => {
+            let sh = v["sh"].as_str().unwrap();
+            let mut cur = expand_towers(&v["x"]);
+            for level in 1..=v["n"].as_u64().unwrap() {
+                cur = if sh == "arr" || (sh == "mix" && level % 2 == 1) {
+                    json!({"t": "arr", "a": [cur]})
+                } else {
+                    json!({"t": "obj", "o": [{"k": ["A"], "v": cur}]})
+                };
+            }
+            cur
+        }
+        "arr" => json!({"t": "arr", "a": v["a"].as_array().unwrap().iter().map(expand_towers).collect::<Vec<_>>()}),
+        "obj" => json!({"t": "obj", "o": v["o"].as_array().unwrap().iter().map(|m| json!({"k": m["k"], "v": expand_towers(&m["v"])})).collect::<Vec<_>>()}),
+        _ => v.clone(),
+    }
+}
+
 pub fn concretize(v: &Value, rng: &mut impl Rng) -> CV {
     match v["t"].as_str().unwrap() {
         "null" => CV::Null,
@@ -327,7 +348,9 @@ fn collect_nums(v: &CV, abs: &Value, out: &mut Vec<(String, Option<String>)>) {
 }
 
 pub fn run(scn: &Value, rng: &mut impl Rng) -> Value {
-    let abs = &scn["v"];
+    let named = &scn["v"];
+    let expanded = expand_towers(named);
+    let abs = &expanded;
     let cv = concretize(abs, rng);
     let modes = [
         Mode { reverse: false, spaces: false, escape_all: false, slash: false },
@@ -358,7 +381,7 @@ pub fn run(scn: &Value, rng: &mut impl Rng) -> Value {
         (Err(_), Err(_)) => true,
         _ => false,
     });
-    let mut ev = json!({"ev": "canon", "v": abs, "same": same, "sorted": true, "parseback": true, "nums_exact": true, "toks": []});
+    let mut ev = json!({"ev": "canon", "v": named, "same": same, "sorted": true, "parseback": true, "nums_exact": true, "toks": []});
     match &results[0] {
         Err(e) => {
             ev["res"] = json!("err");
